@@ -125,6 +125,9 @@ type chainRun struct {
 func newChainRun(c *Ctx, sc chainScenario) *chainRun {
 	ns := NewNodeSim(c)
 	ns.S.PreemptDen = sc.preemptDen
+	if len(sc.faults) > 0 { // the fault-free configuration stays fault-free
+		maybeStalls(c, ns.S, 2, 10, 50)
+	}
 	t := c.Scen
 	cr := &chainRun{ns: ns, sc: sc}
 	tip := ns.BuildChain(ns.Tree.Genesis, sc.pre, nil)
